@@ -257,6 +257,18 @@ def plausible_op(uni, w, S, rng, catalogue):
           k = dup[-1]
           cs[k] = next(x for x in cs[:k] if kinds[x - 1] == kinds[cs[k] - 1])
       return mkop("PushChildren", p, cs=cs)
+    if kinds[p - 1] == "rtc" and smart:
+      # a list with the right kinds in the right order (whatever documents / parents its members have at the moment: a
+      # member that cannot be attached must leave the container exactly as it was)
+      pat = rng.choice([["rt"], ["rt", "rt"], ["rp", "rt", "rp"], ["rp", "rt", "rt", "rp"], ["rp", "rp"]])
+      cs = []
+      for k in pat:
+        c = [e for e in E if kinds[e - 1] == k and e not in cs]
+        if not c:
+          break
+        cs.append(rng.choice(c))
+      if cs:
+        return mkop("PushChildren", p, cs=cs)
     pool = [e for e in E if kinds[e - 1] in ("rt", "rp", "rb", "rbc", "rtc", "span")]
     k = rng.randint(1, 4)
     return mkop("PushChildren", p, cs=rng.sample(pool, min(k, len(pool))))
